@@ -4,7 +4,7 @@
 tier="${1:-thorough}"; shift
 ids="$@"
 [ -z "$ids" ] && ids="C01 C02 C03 C04 C05 C06 C07 C08 C09 C10 C11 C12 C13 C14 C15 C16 C17 C18 C19 C20 C21 C22 C23 C24 C25 C26 C27 C28 C29"
-snap=/tmp/vsnap-$tier
+snap=/tmp/vsnap-$tier-${SNAP_TAG:-a}
 rm -rf $snap; mkdir -p $snap/bin $snap/evidence $snap/replays
 cp -r /verif/harness /verif/spec /verif/check /verif/known_findings.jsonl $snap/
 cd $snap
